@@ -1,6 +1,7 @@
 package eng
 
 import (
+	"os"
 	"fmt"
 	"go/token"
 	"go/types"
@@ -19,6 +20,11 @@ type Obligation struct {
 	PC, Goal string
 	At       int
 	Instance int
+	// path slice: assertions emitted for states that are not ancestors of the obligation's
+	// state are left out of its query (they are guarded by path conditions that are false
+	// here, but their quantifiers would still be instantiated)
+	segs    map[int32]bool
+	lineSeg *[]int32
 	// filled by the solver
 	Status string // unsat (discharged) | sat | unknown | timeout | error
 	Solver string
@@ -31,6 +37,9 @@ type Engine struct {
 	P *Program
 
 	lines       []string
+	lineSeg     []int32 // per line: 0 = always kept, otherwise the segment that emitted it
+	curSeg      int32
+	segSeq      int32
 	nfresh      int
 	typeKeys    map[string]string
 	structSorts map[string]string
@@ -47,6 +56,10 @@ type Engine struct {
 	dry         int // >0: discard everything (loop modified-set discovery)
 	noOblig     int // >0: evaluate without emitting obligations (spec evaluation)
 	nGlobals    int
+	noForallAlt int
+	forceName   bool
+	defLine     bool
+	constArrs   map[string]string
 	inlineTerms int // >0: do not name intermediate values (inside quantifier bodies)
 	boundVars   []T
 
@@ -70,6 +83,8 @@ type Engine struct {
 	recBuilding map[*ssa.Function]*recInfo
 	epochTime   map[int]string
 	curInstr    ssa.Instruction
+	altExistsParts map[string][]string // existential formula -> its index-shifted restatements
+	altExists   map[string]string // existential formula -> equivalent disjunction with index-shifted variants (goal positions only)
 	altForm     map[string]string // universally quantified formula -> equivalent conjunction with index-shifted variants
 	altOnly     map[string][]string
 	loopTimeCtx string // clock at entry of the loop whose clause is being evaluated
@@ -100,7 +115,7 @@ func (e *Engine) popLets(body string) string {
 // hypothesis: positive positions when `s` is assumed (positive=true), negative positions when
 // `s` is a goal to be refuted (positive=false).
 func (e *Engine) enrich(s string, positive bool) string {
-	if len(e.altForm) == 0 || !strings.Contains(s, "(forall ") {
+	if (len(e.altForm) == 0 || !strings.Contains(s, "(forall ")) && (len(e.altExistsParts) == 0 || !strings.Contains(s, "(exists ")) {
 		return s
 	}
 	hit := false
@@ -108,6 +123,14 @@ func (e *Engine) enrich(s string, positive bool) string {
 		if strings.Contains(s, k) {
 			hit = true
 			break
+		}
+	}
+	for k := range e.altExistsParts {
+		if hit {
+			break
+		}
+		if strings.Contains(s, k) {
+			hit = true
 		}
 	}
 	if !hit {
@@ -158,7 +181,7 @@ func (e *Engine) enrichSx(n *sx, pol int) *sx {
 	case "=", "distinct", "xor":
 		return mapAll(1, 0)
 	case "forall":
-		if pol >= 0 {
+		if pol >= 0 && e.noForallAlt == 0 {
 			if alt, ok := e.altForm[n.String()]; ok {
 				return &sx{atom: alt}
 			}
@@ -167,6 +190,24 @@ func (e *Engine) enrichSx(n *sx, pol int) *sx {
 			return &sx{isL: true, list: []*sx{n.list[0], n.list[1], e.enrichSx(n.list[2], pol)}}
 		}
 	case "exists":
+		if parts, ok := e.altExistsParts[n.String()]; ok && len(n.list) == 3 {
+			// the index-shifted restatements: alternatives where the formula is to be proved
+			// (or of unknown polarity), all asserted where it is assumed
+			if pol > 0 {
+				// assumed: one skolem witness, in the form the contract wrote it
+				return &sx{isL: true, list: []*sx{n.list[0], n.list[1], e.enrichSx(n.list[2], pol)}}
+			}
+			out := &sx{isL: true, list: []*sx{{atom: "or"}}}
+			out.list = append(out.list, &sx{isL: true, list: []*sx{n.list[0], n.list[1], e.enrichSx(n.list[2], pol)}})
+			for _, ptxt := range parts {
+				pt := parseSx(ptxt)
+				if pt == nil || !pt.isL || len(pt.list) != 3 {
+					continue
+				}
+				out.list = append(out.list, &sx{isL: true, list: []*sx{pt.list[0], pt.list[1], e.enrichSx(pt.list[2], pol)}})
+			}
+			return out
+		}
 		if len(n.list) == 3 {
 			return &sx{isL: true, list: []*sx{n.list[0], n.list[1], e.enrichSx(n.list[2], pol)}}
 		}
@@ -185,6 +226,8 @@ type recInfo struct {
 	heaps  []string // heap names it reads, in argument order
 	sorts  []string
 	result string
+	fuel      bool // the SMT function takes a leading Fuel argument
+	selfCalls int
 }
 
 // loopFrame records which objects a loop body writes, per heap.
@@ -262,10 +305,11 @@ func NewEngine(p *Program) *Engine {
 		fldKinds: map[string]int{}, instCount: map[string]int{}, Assumptions: map[string]bool{},
 		globalConst: map[*ssa.Global]T{}, immutable: map[*ssa.Global]int{},
 		allocIndex: map[*ssa.Function]map[string]*ssa.Alloc{}, loopCache: map[*ssa.Function]*loopInfo{}, uninterp: map[string]bool{},
-		recInfo: map[*ssa.Function]*recInfo{}, recBuilding: map[*ssa.Function]*recInfo{}, altForm: map[string]string{}, altOnly: map[string][]string{}, letOff: map[int]bool{},
+		recInfo: map[*ssa.Function]*recInfo{}, recBuilding: map[*ssa.Function]*recInfo{}, altForm: map[string]string{}, altExists: map[string]string{}, altExistsParts: map[string][]string{}, altOnly: map[string][]string{}, letOff: map[int]bool{},
 		MaxInline: 14,
 	}
 	e.lines = append(e.lines, smtPrelude)
+	e.lineSeg = append(e.lineSeg, 0)
 	return e
 }
 
@@ -284,15 +328,16 @@ const smtPrelude = `(set-option :produce-models true)
 (define-fun wf_slice ((s Slice)) Bool (and (<= 0 (soff s)) (<= 0 (slen s)) (<= (slen s) (scap s)) (=> (= (sbase s) nil) (= (scap s) 0))))
 (declare-datatypes ((Iface 0)) (((if_nil) (if_ref (ityp_r Int) (iref Ref)) (if_str (ityp_s Int) (istr String)) (if_int (ityp_i Int) (iint Int)) (if_bool (ityp_b Int) (ibool Bool)) (if_bv (ityp_v Int) (ibv (_ BitVec 64))) (if_slice (ityp_l Int) (islice Slice)) (if_func (ityp_f Int) (ifunc Func)))))
 (define-fun dtyp ((x Iface)) Int (ite ((_ is if_ref) x) (ityp_r x) (ite ((_ is if_str) x) (ityp_s x) (ite ((_ is if_int) x) (ityp_i x) (ite ((_ is if_bool) x) (ityp_b x) (ite ((_ is if_bv) x) (ityp_v x) (ite ((_ is if_slice) x) (ityp_l x) (ite ((_ is if_func) x) (ityp_f x) 0))))))))
+(declare-datatypes ((Fuel 0)) (((FZ) (FS (fpred Fuel)))))
 (declare-fun eref (Ref Int) Ref)
 (declare-fun ebase (Ref) Ref)
 (declare-fun eidx (Ref) Int)
 (assert (forall ((b Ref) (i Int)) (! (and (= (ebase (eref b i)) b) (= (eidx (eref b i)) i) (= (rkind (eref b i)) 1) (= (newid (eref b i)) (newid b))) :pattern ((eref b i)))))
 (declare-fun err_is_u (Iface Iface) Bool)
-(declare-fun str_lt (String String) Bool)
-(assert (forall ((a String) (b String)) (! (and (not (and (str_lt a b) (str_lt b a))) (or (str_lt a b) (= a b) (str_lt b a))) :pattern ((str_lt a b)))))
-(assert (forall ((a String)) (! (not (str_lt a a)) :pattern ((str_lt a a)))))
-(assert (forall ((a String) (b String) (c String)) (! (=> (and (str_lt a b) (str_lt b c)) (str_lt a c)) :pattern ((str_lt a b) (str_lt b c)))))
+(declare-fun str_rank (String) Real)
+(declare-fun str_unrank (Real) String)
+(assert (forall ((a String)) (! (= (str_unrank (str_rank a)) a) :pattern ((str_rank a)))))
+(define-fun str_lt ((a String) (b String)) Bool (< (str_rank a) (str_rank b)))
 `
 
 func (e *Engine) emit(line string) {
@@ -301,12 +346,61 @@ func (e *Engine) emit(line string) {
 		// escape); dropping a fact only weakens what is assumed
 		return
 	}
+	line = simplifyAssert(line)
 	e.lines = append(e.lines, line)
+	seg := e.curSeg
+	if !strings.HasPrefix(line, "(assert") || e.defLine {
+		seg = 0
+	}
+	e.lineSeg = append(e.lineSeg, seg)
+}
+
+var noSimp = os.Getenv("GVC_NOSIMP") != ""
+var simpLog *os.File
+
+// simplifyAssert applies the contextual Boolean simplification to an (assert F) line.
+func simplifyAssert(line string) string {
+	if noSimp || !strings.HasPrefix(line, "(assert ") || !strings.HasSuffix(line, ")") || len(line) < 120 {
+		return line
+	}
+	f := line[len("(assert ") : len(line)-1]
+	g := ctxSimplify(f)
+	if g == f {
+		return line
+	}
+	if d := os.Getenv("GVC_SIMP_LOG"); d != "" {
+		if simpLog == nil {
+			simpLog, _ = os.Create(d)
+		}
+		if simpLog != nil {
+			fmt.Fprintf(simpLog, "%s\n%s\n", f, g)
+		}
+	}
+	return "(assert " + g + ")"
 }
 
 // emitDecl emits a declaration even in dry mode (declarations are global and harmless).
 func (e *Engine) emitDecl(line string) {
+	line = simplifyAssert(line)
 	e.lines = append(e.lines, line)
+	e.lineSeg = append(e.lineSeg, 0)
+}
+
+// useState makes st the state the following assertions belong to: they are tagged with a
+// segment recorded in st (and inherited by every state derived from it).
+func (e *Engine) useState(st *State) {
+	if st == nil || e.dry > 0 || e.inlineTerms > 0 {
+		return
+	}
+	if st.segs == nil {
+		st.segs = map[int32]bool{}
+	}
+	if e.curSeg != 0 && st.segs[e.curSeg] {
+		return
+	}
+	e.segSeq++
+	e.curSeg = e.segSeq
+	st.segs[e.curSeg] = true
 }
 
 func (e *Engine) freshName(hint string) string {
@@ -345,9 +439,19 @@ func (e *Engine) fresh(sort, hint string) T {
 	return T{n, sort}
 }
 
+// nameAlways names a term whatever its size (conditional terms that end up inside triggers).
+func (e *Engine) nameAlways(t T, hint string) T {
+	if e.inlineTerms > 0 || !strings.HasPrefix(t.S, "(") || os.Getenv("GVC_NONAMEALWAYS") != "" {
+		return t
+	}
+	e.forceName = true
+	defer func() { e.forceName = false }()
+	return e.name(t, hint)
+}
+
 // name gives a term a name so that later terms stay small.
 func (e *Engine) name(t T, hint string) T {
-	if len(t.S) < 24 {
+	if len(t.S) < 24 && !e.forceName {
 		return t
 	}
 	if e.inlineTerms > 0 {
@@ -373,8 +477,55 @@ func (e *Engine) name(t T, hint string) T {
 		return T{n, t.Sort}
 	}
 	e.emit(fmt.Sprintf("(declare-const %s %s)", n, t.Sort))
-	e.emit(fmt.Sprintf("(assert (= %s %s))", n, t.S))
+	e.defLine = true // definitions of fresh names are kept in every slice
+	if conds, vals, ok := iteChain(t.S); ok && e.forceName {
+		// a conditional value is defined branch by branch: an equation n = (ite …) would be
+		// eliminated by the solvers' preprocessing, and the ite would then show up inside the
+		// triggers of every quantifier that mentions n (triggers with ite are discarded)
+		neg := ""
+		for i, v := range vals {
+			guard := ""
+			if i < len(conds) {
+				guard = neg + " " + conds[i]
+			} else {
+				guard = neg
+			}
+			guard = strings.TrimSpace(guard)
+			if guard == "" {
+				e.emit(fmt.Sprintf("(assert (= %s %s))", n, v))
+			} else {
+				e.emit(fmt.Sprintf("(assert (=> (and %s) (= %s %s)))", guard, n, v))
+			}
+			if i < len(conds) {
+				neg += " (not " + conds[i] + ")"
+			}
+		}
+	} else {
+		e.emit(fmt.Sprintf("(assert (= %s %s))", n, t.S))
+	}
+	e.defLine = false
 	return T{n, t.Sort}
+}
+
+// iteChain splits (ite c1 v1 (ite c2 v2 … vn)) into its conditions and values.
+func iteChain(s string) (conds, vals []string, ok bool) {
+	for strings.HasPrefix(s, "(ite ") {
+		tree := parseSx(s)
+		if tree == nil || len(tree.list) != 4 {
+			break
+		}
+		conds = append(conds, tree.list[1].String())
+		vals = append(vals, tree.list[2].String())
+		s = tree.list[3].String()
+		if len(conds) > 64 {
+			return nil, nil, false
+		}
+	}
+	if len(conds) == 0 {
+		return nil, nil, false
+	}
+	vals = append(vals, s)
+	return conds, vals, true
 }
 
 func (e *Engine) declFun(name, sig string) {
@@ -390,6 +541,7 @@ func (e *Engine) assume(st *State, fact T) {
 	if fact.S == "true" {
 		return
 	}
+	e.useState(st)
 	if e.inlineTerms > 0 {
 		return // facts about bound variables cannot be asserted globally
 	}
@@ -412,17 +564,61 @@ func (e *Engine) oblige(st *State, kind, label string, goal T, pos token.Pos) {
 	}
 	fn := "?"
 	if e.top != nil {
-		fn = funcDisplayName(e.top)
+		fn = e.topName()
 	}
+	e.useState(st)
 	name := fmt.Sprintf("%s#%s:%s", fn, kind, label)
 	o := &Obligation{Name: name, Kind: kind, Func: fn, PC: e.enrich(st.pc.S, true), Goal: e.enrich(goal.S, false), At: len(e.lines), Instance: e.instCount[name]}
+	if !noSimp {
+		o.Goal = ctxSimplify(o.Goal)
+	}
 	if pos.IsValid() {
 		o.Pos = e.P.Fset.Position(pos)
 	}
 	e.instCount[name]++
+	o.segs, o.lineSeg = copySegs(st.segs), &e.lineSeg
 	e.Obls = append(e.Obls, o)
-	// assert-then-assume
+	// assert-then-assume: what has been checked may be used by what follows.  Obligations that
+	// end a state's life (the loop takes over from a havocked state, the function returns) have
+	// nothing following them; assuming their (usually quantified) goals only feeds the solvers
+	// instantiation work about values nobody looks at again.
+	switch kind {
+	case "inv-init", "inv-pres", "post", "frame", "decreases":
+		if os.Getenv("GVC_KEEPASSUME") == "" {
+			return
+		}
+	}
 	e.emit(fmt.Sprintf("(assert %s)", e.enrich(tImp(st.pc, goal).S, true)))
+}
+
+// adoptSegs: values computed in state o flow into s, so s depends on what o depends on.
+func (s *State) adoptSegs(o *State) {
+	if o == nil || o.segs == nil {
+		return
+	}
+	if s.segs == nil {
+		s.segs = map[int32]bool{}
+	}
+	for k := range o.segs {
+		s.segs[k] = true
+	}
+}
+
+func copySegs(m map[int32]bool) map[int32]bool {
+	out := make(map[int32]bool, len(m))
+	for k := range m {
+		out[k] = true
+	}
+	return out
+}
+
+// topName is the display name of the function under verification (with its contract view).
+func (e *Engine) topName() string {
+	n := funcDisplayName(e.top)
+	if e.topContract != nil && e.topContract.View != "" {
+		n += "@" + e.topContract.View
+	}
+	return n
 }
 
 func funcDisplayName(f *ssa.Function) string {
@@ -462,6 +658,7 @@ type State struct {
 	// its allocation (objects that existed at entry have newid 0); tbase + toff is the next value.
 	tbase string
 	toff  int
+	segs  map[int32]bool // segments of emitted assertions this state depends on
 }
 
 func (s *State) time() T {
@@ -491,12 +688,19 @@ func (s *State) clone() *State {
 			n.nonnil[k] = true
 		}
 	}
+	if s.segs != nil {
+		n.segs = make(map[int32]bool, len(s.segs)+1)
+		for k := range s.segs {
+			n.segs[k] = true
+		}
+	}
 	return n
 }
 
 func (s *State) assign(o *State) {
 	s.pc, s.cells, s.heaps, s.epoch, s.defers, s.nonnil = o.pc, o.cells, o.heaps, o.epoch, o.defers, o.nonnil
 	s.tbase, s.toff = o.tbase, o.toff
+	s.segs = o.segs
 }
 
 // heap returns the current term of heap `name` (declaring its epoch default on demand).
@@ -542,13 +746,13 @@ func (e *Engine) initialHeapAxioms(c, sort string) {
 	case sRef:
 		e.emitDecl(fmt.Sprintf("(assert (forall ((x Ref)) (! (= (newid (select %s x)) 0) :pattern ((select %s x)))))", c, c))
 	case sSlice:
-		e.emitDecl(fmt.Sprintf("(assert (forall ((x Ref)) (! (and (= (newid (sbase (select %s x))) 0) (wf_slice (select %s x))) :pattern ((select %s x)))))", c, c, c))
+		e.emitDecl(fmt.Sprintf("(assert (forall ((x Ref)) (! (and (= (newid (sbase (select %s x))) 0) (wf_slice (select %s x))) %s)))", c, c, slicePatterns("(select "+c+" x)")))
 	case sIface:
 		e.emitDecl(fmt.Sprintf("(assert (forall ((x Ref)) (! (=> ((_ is if_ref) (select %s x)) (= (newid (iref (select %s x))) 0)) :pattern ((select %s x)))))", c, c, c))
 	case "(Array Int Ref)":
 		e.emitDecl(fmt.Sprintf("(assert (forall ((x Ref) (i Int)) (! (= (newid (select (select %s x) i)) 0) :pattern ((select (select %s x) i)))))", c, c))
 	case "(Array Int Slice)":
-		e.emitDecl(fmt.Sprintf("(assert (forall ((x Ref) (i Int)) (! (and (= (newid (sbase (select (select %s x) i))) 0) (wf_slice (select (select %s x) i))) :pattern ((select (select %s x) i)))))", c, c, c))
+		e.emitDecl(fmt.Sprintf("(assert (forall ((x Ref) (i Int)) (! (and (= (newid (sbase (select (select %s x) i))) 0) (wf_slice (select (select %s x) i))) %s)))", c, c, slicePatterns("(select (select "+c+" x) i)")))
 	case "(Array Int Iface)":
 		e.emitDecl(fmt.Sprintf("(assert (forall ((x Ref) (i Int)) (! (=> ((_ is if_ref) (select (select %s x) i)) (= (newid (iref (select (select %s x) i))) 0)) :pattern ((select (select %s x) i)))))", c, c, c))
 	}
@@ -612,16 +816,26 @@ func (e *Engine) heapOlderThanNow(st *State, h T) {
 	case sRef:
 		e.emit(fmt.Sprintf("(assert (forall ((x Ref)) (! (< (newid %s) %s) :pattern (%s))))", x, now, x))
 	case sSlice:
-		e.emit(fmt.Sprintf("(assert (forall ((x Ref)) (! (< (newid (sbase %s)) %s) :pattern (%s))))", x, now, x))
+		e.emit(fmt.Sprintf("(assert (forall ((x Ref)) (! (< (newid (sbase %s)) %s) :pattern ((sbase %s)))))", x, now, x))
 	case sIface:
 		e.emit(fmt.Sprintf("(assert (forall ((x Ref)) (! (=> ((_ is if_ref) %s) (< (newid (iref %s)) %s)) :pattern (%s))))", x, x, now, x))
 	case "(Array Int Ref)":
 		e.emit(fmt.Sprintf("(assert (forall ((x Ref) (i Int)) (! (< (newid %s) %s) :pattern (%s))))", xi, now, xi))
 	case "(Array Int Slice)":
-		e.emit(fmt.Sprintf("(assert (forall ((x Ref) (i Int)) (! (< (newid (sbase %s)) %s) :pattern (%s))))", xi, now, xi))
+		e.emit(fmt.Sprintf("(assert (forall ((x Ref) (i Int)) (! (< (newid (sbase %s)) %s) :pattern ((sbase %s)))))", xi, now, xi))
 	case "(Array Int Iface)":
 		e.emit(fmt.Sprintf("(assert (forall ((x Ref) (i Int)) (! (=> ((_ is if_ref) %s) (< (newid (iref %s)) %s)) :pattern (%s))))", xi, xi, now, xi))
 	}
+}
+
+// slicePatterns: facts about a slice read from a heap are instantiated when one of its
+// components is mentioned, not for every read (slice-valued fields nobody looks into were a
+// large share of the instantiations).
+func slicePatterns(x string) string {
+	if os.Getenv("GVC_OLDPAT") != "" {
+		return ":pattern (" + x + ")"
+	}
+	return fmt.Sprintf(":pattern ((sbase %s)) :pattern ((slen %s)) :pattern ((soff %s)) :pattern ((scap %s))", x, x, x, x)
 }
 
 // ---------------------------------------------------------------------------------------------
